@@ -1168,5 +1168,9 @@ func (k Keeper) validateServiceFeeCap(ctx sdk.Context, serviceFeeCap sdk.Coins) 
 		return sdkerrors.Wrapf(types.ErrInvalidDeposit, "service fee cap only accepts %s", baseDenom)
 	}
 
+	if !serviceFeeCap.IsValid() {
+		return sdkerrors.Wrapf(types.ErrInvalidDeposit, "invalid service fee cap: %s", serviceFeeCap)
+	}
+
 	return nil
 }
